@@ -122,4 +122,46 @@ CHECKS = {
             {"pkg": "core", "run": "^TestC08GracefulClose$", "quick": 1000, "thorough": 40000, "shards_thorough": 8},
         ],
     },
+    "C15": {
+        "level": "exploration",
+        "assumptions": ["the accessor hook H2 lists the package-level predefined statuses; statuses created per call are not shared and are out of scope",
+                        "a violation corrupts process-global state, so a failing history is reported as a log (not re-executable in the same process)"],
+        "runs": [
+            {"pkg": "core", "run": "^TestC15StatusImmutable$", "quick": 300, "thorough": 12000, "shards_thorough": 8},
+            {"pkg": "core", "run": "^TestC15BatteryValues$", "quick": 1, "thorough": 1, "rapid": False},
+        ],
+    },
+    "C16": {
+        "level": "exploration",
+        "assumptions": ["the dialling-side check uses loopback TCP (Dial needs a real dialer)"],
+        "runs": [
+            {"pkg": "core", "run": "^TestC16Auth$", "quick": 800, "thorough": 40000, "shards_thorough": 8},
+            {"pkg": "core", "run": "^TestC16Bearer$", "quick": 150, "thorough": 5000, "shards_thorough": 4},
+        ],
+    },
+    "C17": {
+        "level": "exploration",
+        "assumptions": ["nothing is claimed about cipher strength (AES-ECB); 'not in clear' = the 24-character marker does not occur raw, hex- or base64-encoded in the captured frames",
+                        "for (request secure, accept-secure=false) the reply's encryption is not asserted either way (the property text and the plugin's documented marker disagree)"],
+        "runs": [
+            {"pkg": "core", "run": "^TestC17Secure$", "quick": 1500, "thorough": 60000, "shards_thorough": 8},
+        ],
+    },
+    "C18": {
+        "level": "exploration",
+        "assumptions": ["exact limiter models run on the verif-only wrappers (hook H3) with a manual clock; the end-to-end rate check uses the real ticker with a bound that wall-clock slowness can only loosen"],
+        "runs": [
+            {"pkg": "core", "run": "^TestC18(ConnLimiter|QPSLimiter)Model$", "quick": 2000, "thorough": 80000, "shards_thorough": 8},
+            {"pkg": "core", "run": "^TestC18Connections$", "quick": 300, "thorough": 10000, "shards_thorough": 8},
+            {"pkg": "core", "run": "^TestC18Rate$", "quick": 100, "thorough": 3000, "shards_thorough": 8},
+        ],
+    },
+    "C19": {
+        "level": "exploration",
+        "assumptions": ["backend handler statuses are drawn outside [100,199], the range the framework reserves for the sending peer's own errors (the proxy maps that range to Bad Gateway)",
+                        "over the JSON wire protocol bodies are valid UTF-8 (wire-level text domain is C05's subject)"],
+        "runs": [
+            {"pkg": "core", "run": "^TestC19Proxy$", "quick": 800, "thorough": 40000, "shards_thorough": 8},
+        ],
+    },
 }
